@@ -1,2 +1,163 @@
+/* allocation lifecycles (C14) and failure injection (C15)
+ * allocgen   <fail_at> <fail_from> <kind> <ssidhex> <ch> <elhex> [ops A:/R:/S:/C:/K:] ...
+ * allocact   <fail_at> <fail_from> [D:<hex>] ...
+ * allocparse <fail_at> <fail_from> <radiotap 0|1> <hex>
+ * every line: return values, the allocation trace, blocks still live after all release routines ran */
 #include "h.h"
-const struct op ops_life[] = { {NULL, NULL} };
+
+static void arm(char **t) { trace_on = 1; fail_at = (int) tok_ll(t[1]); fail_from = (int) tok_ll(t[2]); }
+static void finish(void) {
+    trace_on = 0;
+    printf(" trace=[%s] live=%d%s", trace_buf, ledger_live(), ledger_errors ? " LEDGER-ERR" : "");
+}
+static char *cstr_tok(const char *tok) { size_t n; unsigned char *b = hexbuf(tok, &n); char *z = __real_malloc(n + 1); memcpy(z, b, n); z[n] = 0; __real_free(b); return z; }
+
+static long tag_op(struct libwifi_tagged_parameters *tags, int kind, void *obj, char *o) {
+    long r = 0;
+    if (o[0] == 'A') {
+        char *c2 = strchr(o + 2, ':'); *c2 = 0;
+        size_t n; unsigned char *b = hexbuf(c2 + 1, &n);
+        LIB(r = libwifi_quick_add_tag(tags, (int) tok_ll(o + 2), b, n));
+        __real_free(b); *c2 = ':';
+    } else if (o[0] == 'R') { LIB(r = libwifi_remove_tag(tags, (int) tok_ll(o + 2)));
+    } else if (o[0] == 'K') { LIB(r = libwifi_check_tag(tags, (int) tok_ll(o + 2)));
+    } else if (o[0] == 'S') {
+        char *z = cstr_tok(o + 2);
+        if (kind == 1) LIB(r = libwifi_set_probe_resp_ssid(obj, z)); else LIB(r = libwifi_set_beacon_ssid(obj, z));
+        __real_free(z);
+    } else if (o[0] == 'C') {
+        uint8_t ch = (uint8_t) tok_ll(o + 2);
+        switch (kind) {
+            case 1: LIB(r = libwifi_set_probe_resp_channel(obj, ch)); break;
+            case 5: LIB(r = libwifi_set_assoc_resp_channel(obj, ch)); break;
+            case 6: LIB(r = libwifi_set_reassoc_resp_channel(obj, ch)); break;
+            default: LIB(r = libwifi_set_beacon_channel(obj, ch));
+        }
+    }
+    return r;
+}
+
+/* kinds: 0 beacon 1 probe_resp 2 probe_req 3 assoc_req 4 reassoc_req 5 assoc_resp 6 reassoc_resp 7 timing_ad */
+static void op_allocgen(int nt, char **t) {
+    unsigned char a[6] = {2, 4, 6, 8, 10, 12};
+    int kind = (int) tok_ll(t[3]);
+    char *ssid = cstr_tok(t[4]);
+    uint8_t ch = (uint8_t) tok_ll(t[5]);
+    size_t eln; unsigned char *el = hexbuf(t[6], &eln);
+    union { struct libwifi_beacon b; struct libwifi_probe_resp pr; struct libwifi_probe_req pq; struct libwifi_assoc_req aq;
+            struct libwifi_reassoc_req rq; struct libwifi_assoc_resp ar; struct libwifi_reassoc_resp rr; struct libwifi_timing_advert ta; } u;
+    memset(&u, 0, sizeof u);
+    struct libwifi_tagged_parameters *tags;
+    int r = 0;
+    arm(t);
+    switch (kind) {
+        case 0: LIB(r = libwifi_create_beacon(&u.b, a, a, a, ssid, ch)); tags = &u.b.tags; break;
+        case 1: LIB(r = libwifi_create_probe_resp(&u.pr, a, a, a, ssid, ch)); tags = &u.pr.tags; break;
+        case 2: LIB(r = libwifi_create_probe_req(&u.pq, a, a, a, ssid, ch)); tags = &u.pq.tags; break;
+        case 3: LIB(r = libwifi_create_assoc_req(&u.aq, a, a, a, ssid, ch)); tags = &u.aq.tags; break;
+        case 4: LIB(r = libwifi_create_reassoc_req(&u.rq, a, a, a, a, ssid, ch)); tags = &u.rq.tags; break;
+        case 5: LIB(r = libwifi_create_assoc_resp(&u.ar, a, a, a, ch)); tags = &u.ar.tags; break;
+        case 6: LIB(r = libwifi_create_reassoc_resp(&u.rr, a, a, a, ch)); tags = &u.rr.tags; break;
+        default: {
+            struct libwifi_timing_advert_fields f; memset(&f, 0, sizeof f);
+            f.timing_capabilities = eln ? el[0] : 0;
+            if (eln > 1) memcpy(f.time_value, el + 1, eln - 1 < 10 ? eln - 1 : 10);
+            if (eln > 11) memcpy(f.time_error, el + 11, eln - 11 < 5 ? eln - 11 : 5);
+            if (eln > 16) memcpy(f.time_update, el + 16, 1);
+            LIB(r = libwifi_create_timing_advert(&u.ta, a, a, a, &f, "GB", 1, 2, 3, 4)); tags = &u.ta.tags; break;
+        }
+    }
+    printf("allocgen r=%d", r);
+    if (r == 0)
+        for (int i = 7; i < nt; i++) {
+            size_t before = tags->length; unsigned char *copy = __real_malloc(before); if (before) memcpy(copy, tags->parameters, before);
+            long rr = tag_op(tags, kind, &u, t[i]);
+            printf(",%ld", rr < 0 ? -1 : rr);
+            /* a failed call must not have lost what was stored */
+            if (rr < 0 && (tags->length != before || (before && memcmp(copy, tags->parameters, before) != 0))) printf("(LOST:%c)", t[i][0]);
+            __real_free(copy);
+        }
+    printf(" tags="); out_hex(tags->parameters, tags->length);
+    LIB(free(tags->parameters));
+    finish();
+    __real_free(ssid); __real_free(el);
+}
+
+static void op_allocact(int nt, char **t) {
+    unsigned char a[6] = {2, 4, 6, 8, 10, 12};
+    struct libwifi_action act; int r;
+    arm(t);
+    LIB(r = libwifi_create_action(&act, a, a, a, 7));
+    printf("allocact r=%d", r);
+    for (int i = 3; i < nt; i++) {
+        size_t n; unsigned char *b = hexbuf(t[i] + 2, &n);
+        uint8_t before = act.fixed_parameters.details.detail_length;
+        size_t rr;
+        LIB(rr = libwifi_add_action_detail(&act.fixed_parameters.details, b, n));
+        printf(",%ld", (long) rr < 0 ? -1 : (long) rr);
+        if ((long) rr < 0 && act.fixed_parameters.details.detail_length != before) printf("(LOST)");
+        __real_free(b);
+    }
+    printf(" detail="); out_hex((unsigned char *) act.fixed_parameters.details.detail, act.fixed_parameters.details.detail_length);
+    LIB(libwifi_free_action(&act));
+    finish();
+}
+
+static void op_allocparse(int nt, char **t) {
+    (void) nt;
+    int rt = (int) tok_ll(t[3]);
+    size_t n; unsigned char *b = hexbuf(t[4], &n);
+    struct libwifi_frame f; memset(&f, 0x5A, sizeof f);
+    int r;
+    arm(t);
+    LIB(r = libwifi_get_wifi_frame(&f, b, n, rt));
+    printf("allocparse r=%d", r < 0 ? -1 : r);
+    if (r == 0) {
+        struct libwifi_bss bss; struct libwifi_sta sta; int pr;
+#define BSSP(fn) LIB(pr = fn(&bss, &f)); printf(",%d", pr < 0 ? (pr == -ENOMEM ? -12 : -1) : pr); LIB(libwifi_free_bss(&bss));
+#define STAP(fn) LIB(pr = fn(&sta, &f)); printf(",%d", pr < 0 ? (pr == -ENOMEM ? -12 : -1) : pr); LIB(libwifi_free_sta(&sta));
+        BSSP(libwifi_parse_beacon) BSSP(libwifi_parse_probe_resp) BSSP(libwifi_parse_assoc_resp) BSSP(libwifi_parse_reassoc_resp)
+        STAP(libwifi_parse_probe_req) STAP(libwifi_parse_assoc_req) STAP(libwifi_parse_reassoc_req)
+        { struct libwifi_parsed_deauth d; LIB(pr = libwifi_parse_deauth(&d, &f)); printf(",%d", pr < 0 ? (pr == -ENOMEM ? -12 : -1) : pr); LIB(free(d.tags.parameters)); }
+        { struct libwifi_parsed_disassoc d; LIB(pr = libwifi_parse_disassoc(&d, &f)); printf(",%d", pr < 0 ? (pr == -ENOMEM ? -12 : -1) : pr); LIB(free(d.tags.parameters)); }
+        { struct libwifi_data d; LIB(pr = libwifi_parse_data(&d, &f)); printf(",%d", pr < 0 ? (pr == -ENOMEM ? -12 : -1) : pr); LIB(libwifi_free_data(&d)); }
+        { struct libwifi_wpa_auth_data d; LIB(pr = libwifi_get_wpa_data(&f, &d)); printf(",%d", pr < 0 ? (pr == -ENOMEM ? -12 : -1) : pr); LIB(libwifi_free_wpa_data(&d)); }
+    }
+    LIB(libwifi_free_wifi_frame(&f));
+    finish();
+    __real_free(b);
+}
+
+/* release routines on zero-initialised objects */
+static void op_freezero(int nt, char **t) {
+    (void) nt; (void) t;
+    trace_on = 1;
+    { struct libwifi_frame o; memset(&o, 0, sizeof o); LIB(libwifi_free_wifi_frame(&o)); }
+    { struct libwifi_bss o; memset(&o, 0, sizeof o); LIB(libwifi_free_bss(&o)); }
+    { struct libwifi_sta o; memset(&o, 0, sizeof o); LIB(libwifi_free_sta(&o)); }
+    { struct libwifi_data o; memset(&o, 0, sizeof o); LIB(libwifi_free_data(&o)); }
+    { struct libwifi_wpa_auth_data o; memset(&o, 0, sizeof o); LIB(libwifi_free_wpa_data(&o)); }
+    { struct libwifi_beacon o; memset(&o, 0, sizeof o); LIB(libwifi_free_beacon(&o)); }
+    { struct libwifi_probe_req o; memset(&o, 0, sizeof o); LIB(libwifi_free_probe_req(&o)); }
+    { struct libwifi_probe_resp o; memset(&o, 0, sizeof o); LIB(libwifi_free_probe_resp(&o)); }
+    { struct libwifi_assoc_req o; memset(&o, 0, sizeof o); LIB(libwifi_free_assoc_req(&o)); }
+    { struct libwifi_assoc_resp o; memset(&o, 0, sizeof o); LIB(libwifi_free_assoc_resp(&o)); }
+    { struct libwifi_reassoc_req o; memset(&o, 0, sizeof o); LIB(libwifi_free_reassoc_req(&o)); }
+    { struct libwifi_reassoc_resp o; memset(&o, 0, sizeof o); LIB(libwifi_free_reassoc_resp(&o)); }
+    { struct libwifi_auth o; memset(&o, 0, sizeof o); LIB(libwifi_free_auth(&o)); }
+    { struct libwifi_deauth o; memset(&o, 0, sizeof o); LIB(libwifi_free_deauth(&o)); }
+    { struct libwifi_disassoc o; memset(&o, 0, sizeof o); LIB(libwifi_free_disassoc(&o)); }
+    { struct libwifi_timing_advert o; memset(&o, 0, sizeof o); LIB(libwifi_free_timing_advert(&o)); }
+    { struct libwifi_action o; memset(&o, 0, sizeof o); LIB(libwifi_free_action(&o)); LIB(libwifi_free_action_detail(&o.fixed_parameters.details)); }
+    { struct libwifi_tagged_parameter o; memset(&o, 0, sizeof o); LIB(libwifi_free_tag(&o)); }
+    printf("freezero ok");
+    finish();
+}
+
+const struct op ops_life[] = {
+    {"allocgen", op_allocgen},
+    {"allocact", op_allocact},
+    {"allocparse", op_allocparse},
+    {"freezero", op_freezero},
+    {NULL, NULL},
+};
